@@ -123,6 +123,28 @@ def _make_short_name_mapper():
     return renamer
 
 
+def _make_unique_name_mapper(renamer):
+    """Wraps a renamer so that distinct ONNX names are never given the same python name:
+    when the proposed name is already taken by another ONNX name, a numeric suffix is added."""
+    assigned: dict[str, str] = {}
+    used: set[str] = set()
+
+    def unique_renamer(name):
+        if name in assigned:
+            return assigned[name]
+        proposed = renamer(name)
+        new_name = proposed
+        counter = 0
+        while new_name in used:
+            new_name = f"{proposed}_{counter}"
+            counter += 1
+        used.add(new_name)
+        assigned[name] = new_name
+        return new_name
+
+    return unique_renamer
+
+
 def _translate_type(onnx_type):
     """Converts a onnx type into a type defined by *onnxscript*."""
     return onnxscript.onnx_types.onnx_type_to_onnxscript_repr(onnx_type, reversible=False)
@@ -281,7 +303,9 @@ class _Exporter:
             rename_function = _make_short_name_mapper()
         else:
             rename_function = _cleanup_variable_name
-        self._rename_variable = self._handle_attrname_conflict(rename_function)
+        self._rename_variable = self._handle_attrname_conflict(
+            _make_unique_name_mapper(rename_function)
+        )
         self.inline_const = inline_const
         self.constants: dict[str, str] = {}
         self._attr_renaming: dict[str, str | None] = {}  # For current function.
